@@ -61,18 +61,30 @@ ASSUMPTIONS = [
     "shared end points may be repeated bit-identically in the point array",
     "every edge joins two different coordinates; no segment (as a coordinate pair) is listed twice",
     "every point is used by at least one edge",
+    "integer lattice points are passed as float64 or (class int-dtype-inputs) as int64 / int32 arrays",
     "tolerance-dependent decisions (single point vs overlapping stretch, merging of computed points) are only asserted "
     "far from the tolerance: overlaps exactly zero or >= 1e-5 of the longer segment; |coordinate| <= 1e6 so that rounded "
     "intersection points differ by < 1e-9; for down-scaled configurations tol = 1e-8 * factor is passed",
     "an output point that is neither an input point nor an exact pairwise intersection is reported (the function has "
     "no other source of points)",
 ]
+def _int_kind(s):
+    """0: float64, 1: int64, 2: int32 - how integer lattice points are handed over (decided from the spec)."""
+    pts = s["pts"]
+    if not all(isinstance(x, int) for q in pts for x in q):
+        return 0
+    k = (sum(abs(x) for q in pts for x in q) + len(s["edges"])) % 6
+    return k if k in (1, 2) else 0
+
+
+KNOWN = {"C29-int32-points-not-converted": lambda s: _int_kind(s) == 2}
+
 REQUIRED = {
     "has-crossing": 0.15, "has-T": 0.15, "has-overlap": 0.1, "has-shared-endpoint": 0.15, "multi-through-point": 0.03,
     "no-intersection": 0.01, "tags0": 0.1, "tags1": 0.1, "tags2": 0.1, "dropped-duplicate-edge": 0.005,
     "input-unique-points": 0.4, "input-duplicated-points": 0.2, "has-coincident-input-points": 0.1,
     "lattice": 0.25, "transformed": 0.2, "scaled-up": 0.08, "scaled-down": 0.03, "far-offset": 0.1, "long-segment": 0.1,
-    "long-segment-short-overlap": 0.04,
+    "long-segment-short-overlap": 0.04, "int-dtype-inputs": 0.08,
 }
 
 
@@ -281,7 +293,12 @@ def check(s):
         labels.append("dropped-duplicate-edge")
 
     # ---- run
-    p_in = np.array(pts, dtype=float).T.copy()
+    # input dtype class: integer lattice points are handed over as an int64 / int32 array in a third of the cases (the
+    # function converts integer points itself: `if p.dtype == int: p = p.astype(float)`); decided from the spec, no RNG
+    kind = _int_kind(s)
+    p_in = np.array(pts, dtype=np.int64 if kind == 1 else np.int32 if kind == 2 else float).T.copy()
+    if kind in (1, 2):
+        labels.append("int-dtype-inputs")
     e_in = np.array(edges, dtype=int).T.copy().reshape((2 + nt, ns))
     out = pp.intersections.split_intersecting_segments_2d(p_in.copy(), e_in.copy(), return_argsort=True, **kw)
     require(len(out) == 4, "return-arity", f"{len(out)}")
